@@ -182,6 +182,184 @@ def first_diff(a, b):
     return None
 
 
+# ------------------------------------------------------------------ histories on ONE reader object
+# GIRParser is a reusable object: parse() / parse_tree() may be called any number of times and get_namespace()
+# returns the model of the document read last.  A history is a sequence of documents read with one instance.
+import re as _re
+
+HEADER_LINE = _re.compile(r'^\s*<(include|package|c:include|doc:format)\b[^>]*/>\s*$')
+
+
+def edit_header(text, spec):
+    """A GIR text with another header: spec = None (unchanged) or a dict
+    {'includes': [[name, version]...], 'packages': [...], 'c_includes': [...], 'doc_format': name|None,
+     'drop_identifier_prefixes': bool}.  Every <include>/<package>/<c:include>/<doc:format> line before <namespace>
+    is replaced by the listed ones."""
+    if not spec:
+        return text
+    lines = text.split('\n')
+    out, done = [], False
+    for ln in lines:
+        if not done and '<namespace' in ln:
+            for n, v in spec.get('includes', []):
+                out.append('  <include name="%s" version="%s"/>' % (n, v))
+            for n in spec.get('packages', []):
+                out.append('  <package name="%s"/>' % n)
+            for n in spec.get('c_includes', []):
+                out.append('  <c:include name="%s"/>' % n)
+            if spec.get('doc_format') is not None:
+                out.append('  <doc:format name="%s"/>' % spec['doc_format'])
+            done = True
+        if not done and HEADER_LINE.match(ln):
+            continue
+        out.append(ln)
+    text = '\n'.join(out)
+    if spec.get('drop_identifier_prefixes'):
+        text = _re.sub(r'\s+c:identifier-prefixes="[^"]*"', '', text, count=1)
+    return text
+
+
+def header_of(ns):
+    return {'name': ns.name, 'version': ns.version, 'includes': sorted(str(i) for i in ns.includes),
+            'packages': sorted(ns.exported_packages), 'c_includes': sorted(ns.c_includes),
+            'doc_format': ns.doc_format, 'identifier_prefixes': list(ns.identifier_prefixes),
+            'symbol_prefixes': list(ns.symbol_prefixes), 'shared_libraries': list(ns.shared_libraries)}
+
+
+def header_items(text):
+    """the header children of <repository> in document order, for the Lean state-machine model"""
+    from xml.etree import ElementTree as ET
+    items = []
+    root = ET.fromstring(text.encode('utf-8') if isinstance(text, str) else text)
+    for el in root:
+        t = _qn(el.tag)
+        if t == 'include':
+            items.append({'k': 'include', 'name': el.attrib.get('name'), 'version': el.attrib.get('version')})
+        elif t == 'package':
+            items.append({'k': 'package', 'name': el.attrib.get('name')})
+        elif t == 'c:include':
+            items.append({'k': 'c_include', 'name': el.attrib.get('name')})
+        elif t == 'doc:format':
+            items.append({'k': 'doc_format', 'name': el.attrib.get('name')})
+    return items
+
+
+BAD_DOCS = [
+    ('Old-1.0.gir', '<?xml version="1.0"?>\n<repository version="1.0" xmlns="http://www.gtk.org/introspection/core/1.0">\n'
+                    '  <include name="Stale" version="9.9"/>\n  <namespace name="Old" version="1.0"/>\n</repository>\n'),
+    ('NoNs-1.0.gir', '<?xml version="1.0"?>\n<repository version="1.2" xmlns="http://www.gtk.org/introspection/core/1.0" '
+                     'xmlns:c="http://www.gtk.org/introspection/c/1.0">\n  <include name="Stale" version="9.9"/>\n'
+                     '  <package name="stale-1.0"/>\n  <c:include name="stale.h"/>\n</repository>\n'),
+]
+
+
+def gen_history(rng, pool):
+    """2-4 documents with differing headers for one reader"""
+    steps = []
+    for _ in range(rng.choice([2, 2, 3, 3, 4])):
+        if rng.random() < 0.06:
+            name, text = rng.choice(BAD_DOCS)     # rejected by every reader: must leave nothing behind either
+            steps.append({'name': name, 'src': {'text': text}, 'header': None, 'via_tree': False})
+            continue
+        e = rng.choice(pool)
+        r = rng.random()
+        if r < 0.35:
+            spec = None
+        elif r < 0.6:
+            spec = {'includes': [], 'packages': [], 'c_includes': [], 'doc_format': None}
+        else:
+            spec = {'includes': rng.sample([['GLib', '2.0'], ['GObject', '2.0'], ['Gio', '2.0'], ['cairo', '1.0'],
+                                            ['Dep', '0.1']], rng.randint(0, 3)),
+                    'packages': rng.sample(['a-1.0', 'z-2.0', 'gobject-2.0'], rng.randint(0, 2)),
+                    'c_includes': rng.sample(['a.h', 'b/b.h', 'glib-object.h'], rng.randint(0, 2)),
+                    'doc_format': rng.choice([None, None, 'gi-docgen', 'gtk-doc-markdown', 'unknown', 'hotdoc'])}
+        if spec is not None and rng.random() < 0.15:
+            spec['drop_identifier_prefixes'] = True
+        steps.append({'name': e['name'], 'src': e['src'], 'header': spec, 'via_tree': rng.random() < 0.25})
+    return {'types_only': rng.random() < 0.15, 'steps': steps}
+
+
+def history_steps(h):
+    out = []
+    for st in h['steps']:
+        src = st['src']
+        if 'repo' in src:
+            with open(os.path.join(REPO, src['repo']), encoding='utf-8') as f:
+                text = f.read()
+        else:
+            text = src['text']
+        out.append({'name': st['name'], 'text': edit_header(text, st.get('header')), 'via_tree': st.get('via_tree', False)})
+    return out
+
+
+def run_history(steps, types_only, scratch):
+    """steps = [{'name': file name, 'text': GIR text, 'via_tree': bool}].  -> (failures, per-step headers of the
+    namespaces the ONE reader returned).  Oracle: the i-th write is byte-identical to what a FRESH reader gives
+    for that document (same exception class when the fresh reader raises), and the namespaces returned earlier
+    are unchanged after every later parse."""
+    from xml.etree import ElementTree as ET
+    m = scanpipe.mods()
+    d = os.path.join(scratch, 'hist')
+    os.makedirs(d, exist_ok=True)
+    fails = []
+    headers = []
+
+    def read(parser, i, st):
+        sub = os.path.join(d, str(i))
+        os.makedirs(sub, exist_ok=True)
+        path = os.path.join(sub, st['name'])
+        with open(path, 'w', encoding='utf-8') as f:
+            f.write(st['text'])
+        try:
+            if st.get('via_tree'):
+                parser.parse_tree(ET.parse(path))
+            else:
+                parser.parse(path)
+            ns = parser.get_namespace()
+            return ('ok', ns, m.girwriter.GIRWriter(ns).get_encoded_xml())
+        except (Exception, SystemExit) as e:  # noqa
+            return ('error', type(e).__name__, None)
+
+    shared = m.girparser.GIRParser(types_only=types_only)
+    earlier = []        # (step index, namespace object, header snapshot, bytes written right after the parse)
+    for i, st in enumerate(steps):
+        fresh = read(m.girparser.GIRParser(types_only=types_only), 'fresh%d' % i, st)
+        got = read(shared, 'shared%d' % i, st)
+        if fresh[0] == 'error':
+            headers.append(None)
+            if got[0] != 'error' or got[1] != fresh[1]:
+                fails.append(('history-exception-differs', i,
+                              'step %d (%s): a fresh reader ends in %s, the reused reader in %s'
+                              % (i, st['name'], fresh[1], got[1] if got[0] == 'error' else 'a namespace')))
+            continue
+        if got[0] == 'error':
+            headers.append(None)
+            fails.append(('history-exception', i, 'step %d (%s): the reused reader raises %s, a fresh reader does not'
+                          % (i, st['name'], got[1])))
+            continue
+        headers.append(header_of(got[1]))
+        if got[2] != fresh[2]:
+            fails.append(('history-not-byte-identical', i,
+                          'step %d (%s) read with a reader that had read %d document(s) before is written differently '
+                          'than when read with a fresh reader: %s; header fresh=%s reused=%s'
+                          % (i, st['name'], i, short(first_diff(fresh[2], got[2]), 300), short(header_of(fresh[1]), 300),
+                             short(header_of(got[1]), 300))))
+        for j, ns, snap, w in earlier:
+            now = header_of(ns)
+            if now != snap:
+                fails.append(('history-earlier-model-changed', i,
+                              'the namespace returned for step %d (%s) changed when step %d (%s) was read with the same '
+                              'reader: %s' % (j, steps[j]['name'], i, st['name'],
+                                              '; '.join('%s: %s -> %s' % (p, short(a, 80), short(b, 80))
+                                                        for p, a, b in deep_diff(snap, now)[:4]))))
+            elif len(w) < 300000 and m.girwriter.GIRWriter(ns).get_encoded_xml() != w:
+                fails.append(('history-earlier-model-changed', i,
+                              'the namespace returned for step %d (%s) is written differently after step %d (%s) was read '
+                              'with the same reader' % (j, steps[j]['name'], i, st['name'])))
+        earlier.append((i, got[1], header_of(got[1]), got[2]))
+    return fails, headers
+
+
 # ------------------------------------------------------------------ AST-equality walk
 # canonical form of "what a GIR carries" of an ast object, following the statement's list: names,
 # types, flags, ownership, indices, documentation, positions, attributes.  Canonicalisation (stated
@@ -2444,7 +2622,8 @@ def vocab_pairs(text, acc):
 
 def run(ctx):
     cnt = Counter()
-    ctx.prove(['gen_pyclasses', 'gen_typenames', 'gen_girvocab_rw'], ['GIVerif.Props.C07'], 'GIVerif.Props.C07')
+    ctx.prove(['gen_pyclasses', 'gen_typenames', 'gen_girvocab_rw', 'gen_girreader_state'], ['GIVerif.Props.C07'],
+              'GIVerif.Props.C07')
     rng = ctx.rng
     fast = fast_scratch(ctx)
     try:
@@ -2479,6 +2658,7 @@ def _run(ctx, cnt, rng, fast):
     wf_queue = []
 
     wfm_queue = []
+    gen_girs = []       # (file name, text) of generated namespaces, for the history stream
 
     def queue_wf(ns, roots, origin, expect):
         try:
@@ -2506,6 +2686,8 @@ def _run(ctx, cnt, rng, fast):
         w1 = out['gir'].encode('utf-8')
         vocab_pairs(w1, seen_vocab)
         fname = '%s-%s.gir' % (cfg['namespace'], cfg['version'])
+        if len(gen_girs) < 60:
+            gen_girs.append((fname, out['gir']))
         roots = cfg.get('sources_top_dirs', ['/src'])
         status, fails, info = judge.judge(w1, fname, origin, replay, ns_written=out['namespace'], roots=roots)
         cnt.case(['ns', w1.decode('utf-8', 'replace')], nontrivial=len(out['namespace'].names) > 0)
@@ -2629,6 +2811,68 @@ def _run(ctx, cnt, rng, fast):
         samples.append({'kind': 'namespace', 'cfg': {k: (v if k != 'decls' else v[:3]) for k, v in last_cfg.items()
                                                     if k in ('namespace', 'version', 'decls', 'dump')}})
     ctx.log('%d generated namespaces judged' % done)
+
+    # ---------------- histories: several documents read with ONE GIRParser instance
+    try:
+        pool = [{'name': fn, 'src': {'text': text}} for fn, text in gen_girs]
+        for path in files:
+            if os.path.getsize(path) < ctx.n(250000, 3000000):
+                pool.append({'name': os.path.basename(path).replace('-expected', ''),
+                             'src': {'repo': os.path.relpath(path, REPO)}})
+        for e in corpus:
+            if e.get('kind') == 'gir':
+                pool.append({'name': e.get('filename', 'Corpus-1.0.gir'), 'src': {'text': e['text']}})
+        hist_cases = [e['history'] for e in corpus if e.get('kind') == 'history']
+        for _ in range(ctx.n(45, 500) if pool else 0):
+            hist_cases.append(gen_history(rng, pool))
+        hdocs, hreal = [], []
+        for h in hist_cases:
+            evaluations += 1
+            steps = history_steps(h)
+            fails, headers = run_history(steps, h.get('types_only', False), fast)
+            cnt.hit('history:len=%d%s' % (len(steps), ',types_only' if h.get('types_only') else ''))
+            for st in h['steps']:
+                cnt.hit('history:header:' + ('as-is' if not st.get('header') else
+                                             'stripped' if not any(st['header'].get(k) for k in
+                                                                   ('includes', 'packages', 'c_includes', 'doc_format'))
+                                             else 'replaced'))
+            cnt.case(['history', h], nontrivial=True)
+            cnt.hit('history:' + ('ok' if not fails else 'FAIL'))
+            seen_kinds = set()
+            for kind, i, what in fails:
+                if kind in seen_kinds:
+                    continue
+                seen_kinds.add(kind)
+                ctx.report_failure('history:%s:%s' % (kind, json.dumps([[st['name'], st.get('header')] for st in h['steps']],
+                                                                      sort_keys=True)[:1500]),
+                                   what, {'kind': 'history', 'history': h, 'failing_step': i})
+            # the Lean state machine on the same histories (documents every reader accepted)
+            if all(x is not None for x in headers):
+                try:
+                    hdocs.append([header_items(st['text']) for st in steps])
+                    hreal.append(headers)
+                except Exception:  # noqa (a header child without name / version: KeyError in the real reader)
+                    pass
+        if hdocs:
+            mres = ctx.driver.batch([{'op': 'c07.header_history', 'docs': d} for d in hdocs])
+            n_dis = 0
+            for d, real, mod in zip(hdocs, hreal, mres):
+                evaluations += 1
+                a = [{'includes': r['includes'], 'packages': r['packages'], 'c_includes': r['c_includes'],
+                      'doc_format': r['doc_format']} for r in real]
+                b = [{'includes': sorted('%s-%s' % (n, v) for n, v in x['includes']), 'packages': sorted(x['packages']),
+                      'c_includes': sorted(x['c_includes']), 'doc_format': x['doc_format']} for x in mod]
+                if a != b:
+                    n_dis += 1
+                    if n_dis <= 3:
+                        ctx.broken.append('correspondence c07.header_history differs: docs=%s real=%s model=%s'
+                                          % (short(d, 400), short(a, 400), short(b, 400)))
+            cnt.hit('history:model-disagreements', n_dis)
+        if hist_cases:
+            h = hist_cases[-1]
+            samples.append({'kind': 'history', 'steps': [[st['name'], st.get('header')] for st in h['steps']]})
+    except Exception as e:  # noqa
+        ctx.broken.append('history stream could not run against this tree: %r\n%s' % (e, traceback.format_exc()[-500:]))
 
     # ---------------- fragment correspondence: Lean model vs real writer / reader
     try:
@@ -2855,6 +3099,11 @@ def _run(ctx, cnt, rng, fast):
                 'attributes toggled at random, doc text with tabs, & < > quotes, leading/trailing spaces, non-ASCII, '
                 'several paragraphs); each judged by w1==w2==w3 through GIRParser+GIRWriter (= scannermain.passthrough_gir) '
                 'and Transformer.parse_from_gir+GIRWriter, plus an AST walk written-vs-read and read-vs-reread. '
+                'histories: sequences of 2-4 parse()/parse_tree() calls on ONE GIRParser (also types_only) over generated and '
+                'shipped GIRs with the header (include / package / c:include / doc:format / c:identifier-prefixes) kept, '
+                'stripped or replaced, now and then a document every reader rejects: each write must be byte-identical '
+                'to what a fresh reader gives, the namespaces returned earlier must not change; the header of each is '
+                'compared with the Lean state machine. '
                 'fragments: generated callables incl. signals (types, parameters, docs) and generated member lists of '
                 'records / unions (typed fields with array lengths, callback fields, anonymous struct / union members) '
                 'written and read by the real code and by the Lean model, plus perturbed (malformed) variants of every '
@@ -2932,6 +3181,14 @@ def replay(ctx, rep):
                 print('write(parse(write)) == write:', same)
                 return 0 if same else 1
             return 2
+        elif kind == 'history':
+            h = r['history']
+            hf, headers = run_history(history_steps(h), h.get('types_only', False), fast)
+            for i, (st, hd) in enumerate(zip(h['steps'], headers)):
+                print('step %d %s header=%s -> %s' % (i, st['name'], short(st.get('header'), 200), short(hd, 300)))
+            for kind_, i, what in hf:
+                print('FAIL %s\n  %s' % (kind_, what[:1500]))
+            return 1 if hf else 0
         elif kind == 'members':
             rf = RealFrag(fast)
             w = rf.write_members(r['members'], r.get('union', False))
